@@ -23,7 +23,7 @@ import (
 func init() { Register("C03", "exploration", checkC03) }
 
 func checkC03(c *Ctx) {
-	c.Rule = "signing proposals built through the API (explicit payload maps, baked ranges) and hand-built signed proposals mixing several explicit tasks and several ranges (empty range, single position, list boundaries), payload bytes incl. 0x00/0xff/JSON metacharacters/>64 KiB, names with spaces and unicode, duplicate payloads; n in {2,3}. For every message of every proposal: each participant's partial signature is verified (prysm) under that participant's share public key over the harness-expanded bytes; id lists, stored SrcPayload/File/ValIdx, broadcasts and exports are compared with the independent expansion. distinct = distinct (proposal shape, n) with at least one judged partial signature"
+	c.Rule = "signing proposals built through the API (explicit payload maps, baked ranges) and hand-built signed proposals mixing several explicit tasks and several ranges (empty range, single position, list boundaries), payload bytes incl. 0x00/0xff/JSON metacharacters/>64 KiB, names with spaces and unicode, duplicate payloads; n in {2,3}. For every message of every proposal: each participant's partial signature is verified (prysm) under that participant's share public key over the harness-expanded bytes; id lists, stored SrcPayload/File/ValIdx, broadcasts and exports are compared with the independent expansion. Every world ends with a signed batch proposed again under the same identifiers with other payloads plus one identifier nobody ever signed, unanswered: in stores, per-batch exports and the whole-round export a signature never stands next to bytes it does not verify for, and the never-answered message is exported with its own payload and no signature. distinct = distinct (proposal shape, n) with at least one judged partial signature"
 	c.Assumptions = []string{"independent expansion: pinned list + independent SSZ reference", "prysm/blst verifies partial signatures under PubPoly.Eval(i)"}
 	worlds := c.Pick(32, 240)
 	perWorld := c.Pick(6, 16)
@@ -318,6 +318,9 @@ func c03Reproposed(c *Ctx, ce *Ceremony, poly *share.PubPoly, r *sched.Rng, wi i
 	for i := range req.SigningTasks {
 		req.SigningTasks[i].Payload = append([]byte("re-proposed with other content: "), r.Bytes(12)...)
 	}
+	// ... plus one identifier nobody has ever signed anything for
+	fresh := requests.SigningTask{MessageID: "never-signed-" + trunc(req.BatchID, 6), File: "never-signed", Payload: append([]byte("proposed, never answered: "), r.Bytes(10)...)}
+	req.SigningTasks = append(req.SigningTasks, fresh)
 	req.CreatedAt = now()
 	var proposer *world.Node
 	for _, nd := range w.Nodes {
@@ -356,6 +359,27 @@ func c03Reproposed(c *Ctx, ce *Ceremony, poly *share.PubPoly, r *sched.Rng, wi i
 			for id, ent := range *ex {
 				judge("export", ent.Payload, ent.Signature, id)
 			}
+		}
+		// the dump `dc4bc_cli export_signatures` writes: all batches of the round flattened by message id,
+		// signed and unsigned messages side by side
+		flat := map[string][]fsmtypes.ReconstructedSignature{}
+		for _, msgs := range SigStore(nd, ce.Round) {
+			for id, entries := range msgs {
+				flat[id] = entries
+			}
+		}
+		ex, err := utils.PrepareSignaturesToDump(flat)
+		if err != nil {
+			c.Violate("C03/export-fails", err.Error(), wit)
+			continue
+		}
+		for id, ent := range *ex {
+			judge("export-of-the-whole-round", ent.Payload, ent.Signature, id)
+		}
+		if ent, ok := (*ex)[fresh.MessageID]; !ok {
+			c.Violate("C03/export-differs-from-proposal", fmt.Sprintf("%s: the export of the whole round lacks the proposed, unanswered message %q", nd.Name, fresh.MessageID), wit)
+		} else if !bytes.Equal(ent.Payload, fresh.Payload) || len(ent.Signature) != 0 {
+			c.Violate("C03/export-differs-from-proposal", fmt.Sprintf("%s: message %q was proposed and never answered; the export of the whole round shows it with %d signature bytes and a payload that is %s the proposed one", nd.Name, fresh.MessageID, len(ent.Signature), map[bool]string{true: "", false: "not "}[bytes.Equal(ent.Payload, fresh.Payload)]), wit)
 		}
 	}
 }
